@@ -76,6 +76,11 @@ C04_moves(a, req, it, r, b) ==
                  /\ (y = "Compromised" => it.op = "Revoke" /\ it.p.code \in {"KEY_COMPROMISE", "CA_COMPROMISE"})
                  /\ (it.op = "Activate" => y = "Active")
 
+\* a key- or CA-compromise revocation that succeeds leaves the object Compromised - from whatever state it was in
+C04_compromise(a, it, r, b) ==
+    (it.op = "Revoke" /\ Succ(r) /\ it.p.code \in {"KEY_COMPROMISE", "CA_COMPROMISE"}) =>
+        LET u == TargetOf(a, it) IN u \in DOMAIN b.objs => b.objs[u].state = "Compromised"
+
 C04_initial(a, b) ==
     \A u \in NewObjs(a, b) : b.objs[u].state \in {"PreActive", "NA"}
 
@@ -326,7 +331,7 @@ C05_attrs(a, req, it, r) ==
               /\ IF want[i].name = "Cryptographic Usage Mask" THEN Range(r.attrs[i].v) = want[i].v
                  ELSE r.attrs[i].v = want[i].v
 
-ItemClauses == {"C03_effect", "C03_denial", "C03_owner", "C04_moves", "C04_initial", "C04_use", "C04_destroy",
+ItemClauses == {"C03_effect", "C03_denial", "C03_owner", "C04_moves", "C04_initial", "C04_use", "C04_destroy", "C04_compromise",
                 "C07_fresh", "C07_reported", "C07_dead", "C07_frame", "C08_failclean", "C08_frame",
                 "C13_item", "C14_order", "C14_set", "C14_page", "C14_set_groups", "C14_page_groups", "C15_fixed", "C15_fail", "C15_exact",
                 "C16_op", "C16_attrs", "C16_create", "C16_query", "C16_avail", "C05_attrs"}
@@ -337,6 +342,7 @@ Holds(c, a, req, it, r, b, g) ==
       [] c = "C03_owner" -> C03_owner(a, req, it, r, b)
       [] c = "C04_moves" -> C04_moves(a, req, it, r, b)
       [] c = "C04_initial" -> C04_initial(a, b)
+      [] c = "C04_compromise" -> C04_compromise(a, it, r, b)
       [] c = "C04_use" -> C04_use(a, req, it, r)
       [] c = "C04_destroy" -> C04_destroy(a, it, r)
       [] c = "C07_fresh" -> C07_fresh(a, b, g)
